@@ -468,11 +468,13 @@ func AppendRecord(filename string, data interface{}, theSize uintptr) (idx pttty
 		return 0, err
 	}
 	defer func() { _ = GoFunlock(fd, filename) }()
+	verifPoint("append.locked", data)
 
 	fsize, err := file.Seek(0, io.SeekEnd)
 	if err != nil {
 		return 0, err
 	}
+	verifPoint("append.seeked", data)
 
 	idxInStore := ptttype.SortIdxInStore(fsize / int64(theSize))
 	offset := int64(idxInStore) * int64(theSize)
@@ -485,6 +487,7 @@ func AppendRecord(filename string, data interface{}, theSize uintptr) (idx pttty
 	if err != nil {
 		return 0, err
 	}
+	verifPoint("append.written", data)
 
 	return idxInStore.ToSortIdx(), nil
 }
